@@ -84,7 +84,8 @@ func checkTotalMsg(m sdk.Msg, st *pureStats) string {
 }
 
 var hostileStrings = []string{"", "a", strings.Repeat("x", 255), strings.Repeat("x", 256), strings.Repeat("y", 70000), "\xff\xfe", "a\x00b", "\x00", " ", "\n",
-	"did:panacea:", "#", "panacea1", "%s%s%n", "../../etc/passwd", "🙂"}
+	"did:panacea:", "#", "panacea1", "%s%s%n", "../../etc/passwd", "🙂",
+	strings.Repeat("é", 127), strings.Repeat("é", 128), strings.Repeat("한", 85), strings.Repeat("한", 100), strings.Repeat("🙂", 64), strings.Repeat("é", 255), strings.Repeat("\xff", 256)}
 
 // hostileMutate replaces one string field of m (by protobuf JSON name) with a hostile value.
 func hostileMutate(t *rapid.T, m sdk.Msg) sdk.Msg {
